@@ -25,7 +25,7 @@ EXPRS = ["1", "-1", "1.5", "1e400", "0x", "0xFFFFFFFFFFFFFFFFFFFFF", "\"s\"", "'
          "a as", "size(a)", "size()", "size(a, 0)", "size(a, -1)", "size(a, 'x')", "size(a, 99)", "dimensionIndex(a, 'x')", "dimensionIndex(a)",
          "dimensionCount(a)", "dimensionCount()", "foo(a)", "a[0]", "a[-1]", "a[99999999999999999999]", "a[x:0]", "a[x:0, x:1]", "a[0, 1, 2, 3]", "a[b]",
          "a[]", "a.b", "a.b.c", "a[0].b[1]", "(a", "a)", "a +", "+ a", "a ? b", "!switch a", "((((((((((a))))))))))", "a as float32 as int8 as string",
-         "size(size(a))", "a[size(a)]", "\"" + "x" * 3000 + "\"", "a" * 3000]
+         "size(size(a))", "a[size(a)]", "k0", "k1", "k0 + 1", "k1 + k2", "m[]", "b[x:1, y:2]", "a[x:0]", "v[3]", "a[1][2][3]", "size(a, 0, 1)", "\"" + "x" * 3000 + "\"", "a" * 3000]
 
 
 def mutate_text(text: str, r: random.Random) -> str:
@@ -121,8 +121,8 @@ def arbitrary_defs(r: random.Random, n: int = 6):
                     if r.random() < 0.2:
                         out.append("    k%d:" % i)
                         out.append("      !switch %s:" % r.choice(["a", "b", "zz", "a[0]"]))
-                        for pat in r.sample(["int", "string", "null", "_", "Foo f", "int i", "null n", "float[] arr", "x y z"], r.randint(0, 4)):
-                            out.append("        %s: %s" % (pat, q(r.choice(EXPRS))))
+                        for pat in r.sample(["int", "string", "null", "_", "Foo f", "int i", "null n", "float[] arr", "x y z", "int x", "float y", "string s"], r.randint(0, 4)):
+                            out.append("        %s: %s" % (pat, q(r.choice(EXPRS + ["k0", "k1", "k%d" % i, "x", "i + k0"]))))
                     else:
                         out.append("    %s: %s" % (r.choice(["k%d" % i, "a", "k0"]), q(r.choice(EXPRS))))
         elif k == "alias":
@@ -177,3 +177,27 @@ def random_bytes(r: random.Random) -> bytes:
     if k == 2:
         return ("\ufeff" + "".join(chr(r.choice([0x41, 0x3A, 0x20, 0x0A, 0x85, 0x2028, 0xFFFE, 0x1F600, 0])) for _ in range(n))).encode("utf-8", "ignore")
     return b"\xff\xfe" + bytes(r.randrange(256) for _ in range(n))
+
+
+def compose_expr(r: random.Random, depth: int = 0) -> str:
+    """seeded compositions over the typed record TE used by C10 (fields a, b, v, m, u, o, r, f, zz and computed k0, k1)"""
+    atoms = ["a", "b", "v", "m", "u", "o", "r", "f", "zz", "k0", "k1", "r.b", "r.c", "1", "2.5", "'x'", "0x1F", "-3"]
+    if depth > 2 or r.random() < 0.3:
+        return r.choice(atoms)
+    k = r.randrange(8)
+    x, y = compose_expr(r, depth + 1), compose_expr(r, depth + 1)
+    if k == 0:
+        return "%s %s %s" % (x, r.choice(["+", "-", "*", "/", "**"]), y)
+    if k == 1:
+        return "(%s)" % x
+    if k == 2:
+        return "%s[%s]" % (x, r.choice(["", y, "0", "x:0", "x:0, y:1", "0, 1", "y:1, x:0", "-1", "'k'", "x:0, 1", "0, 1, 2", "x:" + y]))
+    if k == 3:
+        return "size(%s%s)" % (x, r.choice(["", ", 0", ", 'x'", ", 'q'", ", 5", ", " + y, ", 0, 1"]))
+    if k == 4:
+        return "%s as %s" % (x, r.choice(["int", "float64", "string", "uint8", "Inner", "bool", "int*", "Missing"]))
+    if k == 5:
+        return "dimensionIndex(%s, %s)" % (x, r.choice(["'x'", "'y'", "'q'", "0", y]))
+    if k == 6:
+        return "dimensionCount(%s)" % x
+    return "%s.%s" % (x, r.choice(["b", "c", "q", "a"]))
